@@ -102,6 +102,33 @@ define_side_metadata_specs!(
     COMPRESSOR_OFFSET_VECTOR = (global: false, log_num_of_bits: LOG_BITS_IN_ADDRESS, log_bytes_in_region: crate::policy::compressor::forwarding::Block::LOG_BYTES),
 );
 
+/// Verification hook (feature `verif`): every spec defined by the two tables above, in table
+/// order, as `(global specs, local specs)`.
+#[cfg(feature = "verif")]
+pub(crate) fn verif_all_core_specs() -> (Vec<SideMetadataSpec>, Vec<SideMetadataSpec>) {
+    (
+        vec![VO_BIT, SFT_DENSE_CHUNK_MAP_INDEX, CHUNK_MARK],
+        vec![
+            MALLOC_MS_ACTIVE_PAGE,
+            MS_OFFSET_MALLOC,
+            IX_LINE_MARK,
+            IX_BLOCK_DEFRAG,
+            IX_BLOCK_MARK,
+            MS_BLOCK_MARK,
+            MS_BLOCK_NEXT,
+            MS_BLOCK_PREV,
+            MS_BLOCK_LIST,
+            MS_BLOCK_SIZE,
+            MS_BLOCK_TLS,
+            MS_FREE,
+            MS_LOCAL_FREE,
+            MS_THREAD_FREE,
+            COMPRESSOR_MARK,
+            COMPRESSOR_OFFSET_VECTOR,
+        ],
+    )
+}
+
 #[cfg(test)]
 mod tests {
     // We assert on constants to test if the macro is working properly.
